@@ -8,7 +8,8 @@ TB = ("Trusted: Coq 8.16.1 kernel (full .vo build, vm_compute, no native_compute
       "and on the generated inputs, to behave as the verified Coq model does (hand-written model + correspondence check). ")
 CHECKS = {
  'C01': dict(text="Theorem C01_faithful (Coq): for every valid history of the eight mutators, every initial size and every label type, the model run ends normally and "
-                  "size, edge count, hasEdge, neighbour lists (NoDup, exact membership), labels equal the pair-set spec. The model is tied to /repo by differential execution: "
+                  "size, edge count, hasEdge, neighbour lists (NoDup, exact membership), labels equal the pair-set spec; C01_all_observers: the model's WHOLE observation vector (degrees, matrices, edges(), "
+                  "iteration included) equals the vector computed from the spec - the vector the differential test's spec oracle prints. The model is tied to /repo by differential execution: "
                   "thousands of seeded histories per run, all observers compared after every call against the extracted model and the spec oracle.",
              note=TB + "Modelled, not verified: std::list/vector/unordered_map as lists and association lists; VertexIndex as nat (no 2^32 wrap).",
              tech="Coq refinement proof (model -> pair-set spec) + differential correspondence check model/implementation", ref="DESIGN.md §6 C01"),
@@ -16,8 +17,9 @@ CHECKS = {
 CHECKS.update({
  'C02': dict(text="Theorem C02_faithful (Coq): for every valid history on the undirected model (any orientation per call, any size, any label type) the run ends normally, the "
                   "symmetric invariant holds and hasEdge (both orientations), neighbour lists, edge count, getDegree (both self-loop conventions), edges() and labels equal the "
-                  "unordered-pair spec; C02_removals_exact states what each removal must not change. Tied to /repo by differential execution of seeded histories with all observers compared.",
-             note=TB + "Modelled, not verified: std::list/vector/unordered_map; adjacency matrix of the undirected class is covered by the correspondence and spec oracle only (no theorem yet).",
+                  "unordered-pair spec; C02_removals_exact states what each removal must not change; C02_degree / C02_adjacency_matrix(_symmetric) / C02_all_observers: degrees, the symmetric matrix in both self-loop "
+                  "conventions and the model's whole observation vector equal what the spec gives. Tied to /repo by differential execution of seeded histories with all observers compared.",
+             note=TB + "Modelled, not verified: std::list/vector/unordered_map as lists and association lists.",
              tech="Coq refinement proof (model -> unordered-pair spec) + differential correspondence check", ref="DESIGN.md §6 C02"),
  'C03': dict(text="Theorems C03_directed_labels / C03_undirected_labels (Coq): after any valid history getEdgeLabel (throwing and not) and hasEdge(i,j,l) answer exactly from the spec, "
                   "whose semantics (C03_spec_semantics) is: value at creation or last setEdgeLabel, re-add keeps it, every removal forgets it. Witnesses of the repaired stale-label "
@@ -43,49 +45,55 @@ CHECKS.update({
                   "set), removeEdge deletes all copies and lowers the count by their number, removeDuplicateEdges restores the full C01 invariant with the same connected pairs, one copy "
                   "each, labels untouched. The multiset spec oracle (copies + last label per pair; multigraph/weighted: opinion only once no pair is duplicated) and the Coq model are "
                   "compared with /repo on histories mixing forced/unforced insertions, removeEdge and removeDuplicateEdges for all six classes.",
-             note=TB + "Proved for the directed labelled model; the undirected, multigraph and weighted forced behaviour is covered by the correspondence with the model and by the spec oracle, "
-                  "not yet by theorems. For multigraphs 'the graph built without force' is read as the deduplicated graph (one copy per pair carrying the common multiplicity), as the "
+             note=TB + "Proved for the directed and undirected labelled models and (C16_multigraph_*) for both multigraphs, including 'forced then removeDuplicateEdges == built without force' "
+                  "EXACTLY WHEN repeated insertions of a pair agree on the label (closed counterexample otherwise: the forced run keeps the last label, the unforced the first); the "
+                  "weighted classes' forced behaviour is covered by the correspondence and the spec oracle. For multigraphs 'the graph built without force' is read as the deduplicated graph (one copy per pair carrying the common multiplicity), as the "
                   "repository's own tests do.",
              tech="Coq lemmas on the weak (duplicate-tolerant) invariant + differential correspondence with a multiset spec oracle", ref="DESIGN.md §6 C16"),
 })
 CHECKS.update({
  'C06': dict(text="Theorems C06_* (Coq): the model of operator== (size, cached edge number, label map, mutual adjacency inclusion) is defined on any two graphs satisfying the invariant "
                   "and is true exactly when sizes, edge sets and labels agree; for ANY two valid histories the verdict equals 'the two histories denote the same graph' (so insertion "
-                  "order and past content cannot matter); reflexive, symmetric. Tied to /repo by pairs of histories on all eight classes: different constructions of one target, "
+                  "order and past content cannot matter); reflexive, symmetric. C06_undirected_eq / C06_undirected_histories / C06_multigraph_histories / C06_weighted_histories / "
+                  "C06_multi_weighted_states: the same for the undirected class, both multigraphs and both weighted graphs (verdict = equality of the spec maps; totals, which operator== "
+                  "does not compare, are then equal anyway), and the verdict is literally the executable spec verdict the test's oracle computes. Tied to /repo by pairs of histories on all eight classes: different constructions of one target, "
                   "one-edge/one-label/size differences, random pairs; ==, != both ways, copies, assignment, independence of copies.",
-             note=TB + "Theorems are for the directed labelled model (the undirected, multigraph and weighted classes delegate to the same base-class operator== in the code and call the "
-                  "same graph_eqb in the model; their verdicts are covered by the correspondence and the spec oracle). Independence of copies is a property of C++ value semantics: "
+             note=TB + "All eight classes use the same base-class operator== (graph_eqb in the model). Independence of copies is a property of C++ value semantics: "
                   "identity in the model, checked on the implementation only.",
-             tech="Coq proof (operator== model <-> value equality of denoted graphs) + differential correspondence on history pairs", ref="DESIGN.md §6 C06"),
+             tech="Coq proof (operator== model <-> value equality of denoted graphs, all classes) + differential correspondence on history pairs", ref="DESIGN.md §6 C06"),
 })
 CHECKS.update({
- 'C04': dict(text="Theorem C04_directed_multigraph_consistent (Coq): after any valid history on the DirectedMultigraph model getEdgeMultiplicity equals the spec function (+k, -min(k,cur), "
-                  ":=k, bulk removals zero), is 0 exactly when hasEdge is false, getEdgeNumber = #pairs, getTotalEdgeNumber = sum of multiplicities; C04_directed_invariant: total = sum of "
-                  "stored multiplicities in every reachable state. PARTIAL: the UndirectedMultigraph half is stated (C04_undirected_full_statement) but not proved; both classes, their "
-                  "degrees and matrices are tied to /repo and to the executable spec oracle by the correspondence check on seeded histories with multiplicity arguments around the current value.",
-             note=TB + "Multiplicities are unbounded Z in the model (no 2^32 wrap); degrees/adjacency matrix of the multigraphs and everything undirected: correspondence + spec oracle, no theorem.",
-             tech="Coq refinement proof (directed multigraph model -> multiplicity-function spec) + differential correspondence for both classes", ref="DESIGN.md §6 C04"),
- 'C05': dict(text="Theorem C05_directed_weighted_consistent (Coq): after any valid history on the DirectedWeightedGraph model hasEdge/getEdgeWeight (throwing or not) answer from the spec "
+ 'C04': dict(text="Theorems C04_directed_multigraph_consistent and C04_undirected_multigraph_consistent (Coq): after any valid history on the DirectedMultigraph resp. UndirectedMultigraph "
+                  "model getEdgeMultiplicity equals the spec function (+k, -min(k,cur), :=k, bulk removals zero; unordered pairs for the undirected class), is 0 exactly when hasEdge is "
+                  "false, getEdgeNumber = #pairs, getTotalEdgeNumber = sum of multiplicities; C04_*_invariant: total = sum of stored multiplicities in every reachable state; C04_(undirected_)degree / adjacency_matrix / "
+                  "all_observers: degrees are row/column sums of multiplicities, the matrix holds the multiplicities (diagonal doubled iff asked), and the whole observation vector equals "
+                  "the spec's. Both classes are tied to /repo and to the executable spec oracle by the correspondence check on seeded histories with multiplicity "
+                  "arguments around the current value.",
+             note=TB + "Multiplicities are unbounded Z in the model (no 2^32 wrap); no 2^32 wrap of counters.",
+             tech="Coq refinement proof (directed and undirected multigraph models -> multiplicity-function spec) + differential correspondence for both classes", ref="DESIGN.md §6 C04"),
+ 'C05': dict(text="Theorems C05_directed_weighted_consistent and C05_undirected_weighted_consistent (Coq): after any valid history on the DirectedWeightedGraph resp. UndirectedWeightedGraph model hasEdge/getEdgeWeight (throwing or not) answer from the spec "
                   "(weight at creation or last setEdgeWeight, addEdge on a present edge is a no-op, missing edge -> invalid_argument or 0), getEdgeNumber = #edges and getTotalWeight = "
-                  "sum of present weights, in exact arithmetic. PARTIAL: the UndirectedWeightedGraph half is stated (C05_undirected_full_statement) but not proved, and floating-point "
-                  "rounding ('within accumulated rounding error otherwise') is not modelled. Both classes incl. getWeightMatrix are tied to /repo and the spec oracle by the correspondence "
+                  "sum of present weights, in exact arithmetic. C05_weight_matrix / C05_*_all_observers: the weight matrix and the whole "
+                  "observation vector equal the spec's. PARTIAL only in that floating-point rounding ('within accumulated rounding error otherwise') is not modelled. Both classes are tied to /repo and the spec oracle by the correspondence "
                   "check with exactly representable weights k/4 (negative, zero, positive).",
              note=TB + "Weights are exact integers in units of 1/4; long double accumulation and rounding are outside the model (DESIGN.md §10).",
-             tech="Coq refinement proof (directed weighted model -> weight-function spec, exact arithmetic) + differential correspondence for both classes", ref="DESIGN.md §6 C05"),
+             tech="Coq refinement proof (directed and undirected weighted models -> weight-function spec, exact arithmetic) + differential correspondence for both classes", ref="DESIGN.md §6 C05"),
 })
 CHECKS.update({
  'C09': dict(text="Theorems C09_reversed, C09_reversed_twice, C09_edge_list_constructor (Coq, directed labelled model, every label type): getReversedGraph = exactly the flipped edges with "
                   "their labels on every graph satisfying the invariant; reversing twice is == the original; the edge-list constructor yields 1+max-index vertices (0 for an empty list) and "
-                  "the graph of adding the edges one at a time (first label wins), for every list. PARTIAL: getDirectedGraph, undirected-from-directed, the round trip, the constructors of "
-                  "the other seven classes and copy/assignment are covered by the correspondence check against the Coq model and the spec images, with four or five standard containers.",
+                  "the graph of adding the edges one at a time (first label wins), for every list. C09_get_directed_graph / C09_undirected_from_directed / C09_undirected_round_trip (undirected "
+                  "model, every label type): getDirectedGraph has both orientations of every edge with the edge's label, undirected-from-directed has {i,j} iff either orientation exists "
+                  "(label of the orientation with the smaller source), and undirected->directed->undirected is == the original. PARTIAL: the constructors of the other seven classes and "
+                  "copy/assignment are covered by the correspondence check against the Coq model and the spec images, with four or five standard containers.",
              note=TB + "Copy construction/assignment independence is a property of C++ value semantics (identity in the model), exercised under C06.",
-             tech="Coq proof (fold-of-addEdge lemma -> reversal, double reversal, constructor) + differential correspondence for all conversions/constructors", ref="DESIGN.md §6 C09"),
+             tech="Coq proof (fold-of-addEdge lemmas, directed and undirected -> reversal, double reversal, constructor, both conversions, round trip) + differential correspondence for all conversions/constructors", ref="DESIGN.md §6 C09"),
 })
 CHECKS.update({
- 'C10': dict(text="Theorems C10_subgraph_is_induced / C10_subgraph_with_remap (Coq, directed model, every label type): for EVERY duplicate-free iteration order of the unordered_set and "
+ 'C10': dict(text="Theorems C10_subgraph_is_induced / C10_subgraph_with_remap and C10_undirected_subgraph_is_induced / C10_undirected_subgraph_with_remap (Coq, directed and undirected model, every label type): for EVERY duplicate-free iteration order of the unordered_set and "
                   "every subset of in-range vertices, getSubgraph has the size of g and exactly the edges with both endpoints in S with their labels; getSubgraphWithRemap has |S| vertices, "
-                  "its map is one-to-one from S onto 0..|S|-1 and the result is the image of the induced subgraph; an out-of-range member gives std::out_of_range. PARTIAL: the undirected "
-                  "instantiation is covered by the correspondence check only. Tie: all 2^n subsets (n<=4) of graphs built by seeded histories; the harness reports the real iteration order of "
+                  "its map is one-to-one from S onto 0..|S|-1 and the result is the image of the induced subgraph; an out-of-range member gives std::out_of_range. "
+                  "Tie: all 2^n subsets (n<=4) of graphs built by seeded histories; the harness reports the real iteration order of "
                   "its unordered_set, and the spec side validates the RETURNED map as a bijection before comparing the image.",
              note=TB + "std::unordered_set iteration order enters as a parameter (oracle) read from the implementation run and validated (duplicate-free, same elements).",
              tech="Coq proof (fold-of-addEdge lemma, all enumeration orders) + differential correspondence on all small subsets", ref="DESIGN.md §6 C10"),
@@ -93,12 +101,14 @@ CHECKS.update({
 CHECKS.update({
  'C11': dict(text="Theorems C11_single_predecessor_search / C11_find_geodesics (Coq): for every well-formed adjacency structure and in-range source, the model of findVertexPredecessors "
                   "(statement by statement: distance/parent/visited vectors, FIFO queue) yields hop minima over ALL walks (sentinel iff unreachable) and parents one hop closer along an edge; "
-                  "findGeodesics returns [source], [] or a walk with exactly the minimum number of hops. PARTIAL: findAllVertexPredecessors, findAllGeodesics and the FromVertex variants "
-                  "(full statements kept as definitions) are tied to /repo and to a brute-force spec (iterated successor sets, all walks of minimal length) by correspondence on every "
-                  "digraph on <=3 vertices, undirected on <=3-4, families with exponentially many shortest paths and random graphs, all source/destination pairs.",
+                  "findGeodesics returns [source], [] or a walk with exactly the minimum number of hops. C11_all_predecessors / C11_find_all_geodesics: findAllVertexPredecessors gives the "
+                  "same distances and, per vertex, the duplicate-free list of exactly the in-neighbours one hop closer; findAllGeodesics returns exactly the minimum-length walks, none "
+                  "twice. PARTIAL: the two FromVertex variants are tied to /repo and to a brute-force spec (iterated successor sets, all walks of minimal length) by correspondence only - "
+                  "like everything else here - on every digraph on <=3 vertices, undirected on <=3-4, families with exponentially many shortest paths and random graphs, all "
+                  "source/destination pairs.",
              note=TB + "The searches see a graph only through getOutNeighbours, so one model covers directed and undirected graphs; implementation-chosen values (which parent, which shortest "
                   "path) are validated against the relation rather than fixed.",
-             tech="Coq proof (layered-queue BFS invariant; parent-chain reconstruction) + exhaustive small-graph correspondence with a brute-force oracle", ref="DESIGN.md §6 C11, App. A"),
+             tech="Coq proof (layered-queue BFS invariant; simulation of the all-predecessor search; parent-chain and stack-loop enumeration) + exhaustive small-graph correspondence with a brute-force oracle", ref="DESIGN.md §6 C11, App. A"),
  'C12': dict(text="Theorem C12_dijkstra_correct (Coq): for EVERY pop sequence in which each pop is a worklist member of minimum tentative distance and which empties the worklist - zero "
                   "weights and cycles included - distances are the minimum walk weights (none iff unreachable), the source is its own predecessor, unreachable vertices have none, every "
                   "other vertex v has an edge (p,v,w) with dist[v] = dist[p] + w, and at most 1+E pops happen; C12_progress: a legal pop always exists. Tie: the harness records the pop "
@@ -106,27 +116,29 @@ CHECKS.update({
                   "and validates the returned predecessor vector.",
              note=TB + "std::make_heap/pop_heap are not modelled: any legal choice is admitted. Exact arithmetic (weights k/4); rounding is outside the model.",
              tech="Coq proof (label-correcting invariant + greedy lemma, choice-driven) + correspondence replaying the implementation's pop sequence", ref="DESIGN.md §6 C12, App. A"),
- 'C19': dict(text="Theorems C19_single_predecessor_scans (<= V scans, fuel V suffices) and C19_dijkstra_scans (<= 1+E pops for any legal run) (Coq). PARTIAL: the bound for "
-                  "findAllVertexPredecessors is a recorded statement checked by correspondence: the getOutNeighbours calls of the three searches on a counting graph type are compared with "
-                  "the model counters and with V, V+E, V+E+1 on layered/grid families (exponentially many shortest paths), zero-weight cycles and random graphs. The exponential behaviour "
+ 'C19': dict(text="Theorems C19_single_predecessor_scans (<= V scans, fuel V suffices), C19_all_predecessors_scans (<= V scans for findAllVertexPredecessors) and C19_dijkstra_scans (<= 1+E "
+                  "pops for any legal run) (Coq). Tie: the getOutNeighbours calls of the three searches on a counting graph type are compared with "
+                  "the model counters and with V, V+E, V+E+1 on layered/grid families (exponentially many shortest paths), zero-weight cycles and random graphs, plus a change-directed "
+                  "hill-climb on scans/bound over (weighted) digraphs evaluated on the implementation. The exponential behaviour "
                   "of the pinned commit is kept as a kernel-checked example (47 scans > V+E = 26 on 4 layers of width 2).",
              note=TB + "Only neighbourhood scans are counted, as the property states; heap maintenance cost is outside it.",
-             tech="Coq proof (fuel = bound; potential argument for Dijkstra) + scan counting on instrumented graph types", ref="DESIGN.md §6 C19"),
+             tech="Coq proof (fuel = bound; simulation for the all-predecessor search; potential argument for Dijkstra) + scan counting on instrumented graph types with a hill-climbing search", ref="DESIGN.md §6 C19"),
 })
 CHECKS.update({
  'C13': dict(text="Theorems C13_tokeniser_two_tokens / C13_tokeniser_label_text / C13_index_round_trip (Coq): the model of findEdgeFromString (npos arithmetic verbatim) returns the two "
                   "vertex tokens for EVERY line ws* tok ws+ tok ws*, and hands everything after the following whitespace to the label parser; std::stoi(std::to_string(n)) = n for n < 2^31. "
-                  "PARTIAL: the file-level round trip (statement kept as a definition), the comment rule and the name table are checked by correspondence: grammar-generated well-formed "
+                  "C13_file_round_trip(_undirected): writing any graph with int labels in [0,2^31) (<= 3001 vertices: harness limit of the loader model) and loading the bytes gives, after "
+                  "resize, a graph == the original (directed: identical lists). PARTIAL: hand-written files (comment lines anywhere, names) and the name table are checked by correspondence: grammar-generated well-formed "
                   "files (comments, tabs/spaces anywhere, names, int and string labels) against the model and an independent reading of the format; written files byte-for-byte against "
                   "the model writer and reloaded == original.",
              note=TB + "std::getline, std::string::find_first_of/substr, std::stoi and std::to_string are modelled by hand-written byte-list functions (validated by the correspondence).",
-             tech="Coq proof (tokeniser on all well-formed lines, decimal round trip) + grammar-based differential correspondence", ref="DESIGN.md §6 C13"),
+             tech="Coq proof (tokeniser on all well-formed lines, decimal round trip, write-then-load round trip) + grammar-based differential correspondence", ref="DESIGN.md §6 C13"),
  'C14': dict(text="Theorems C14_codec / C14_record_layout / C14_load_of_encoded_records (Coq): fixed-width little-endian codec with exact round trip, every record is 4+4+w bytes in that "
                   "layout, a file of n records has n*(8+w) bytes, and loading the encoding of ANY record list (any order) yields the graph of exactly those records. PARTIAL: 'the writer "
                   "emits one record per edge', graph equality after resize and std::runtime_error on unopenable files are checked by correspondence (multiset of records vs model and spec, "
                   "reload == original, all label widths incl. float/double bit patterns).",
              note=TB + "Little-endian host assumed; ifstream::read modelled as take-n-or-fail.",
-             tech="Coq proof (codec, layout, decode-encode on record lists) + differential correspondence on written and hand-made files", ref="DESIGN.md §6 C14"),
+             tech="Coq proof (codec, layout, decode-encode on record lists, graph-level write-load round trip) + differential correspondence on written and hand-made files", ref="DESIGN.md §6 C14"),
  'C15': dict(text="Theorems C15_truncated_binary (Coq): for every record list, label width and EVERY cut offset, the repaired loader returns exactly the graph of the complete records before "
                   "the cut; C15_text_loaders_total: for EVERY byte string both text loaders end with a graph or a C++ exception (the model never reaches an unchecked index). The pinned "
                   "loader's invented edge is kept as a kernel-checked example. Tie: every cut offset of generated binary files and a separate malformed-text stream, under ASan+UBSan; a "
@@ -134,6 +146,26 @@ CHECKS.update({
              note=TB + "Memory safety itself is a runtime notion: the model proves definedness of its checked accesses; the sanitizer-instrumented correspondence exhibits the rest. "
                   "Vertex indices above 3000 are outside the harness ('small enough to allocate').",
              tech="Coq proof (parser on all prefixes; totality of the text loaders) + exhaustive cut-offset and malformed-input correspondence under sanitizers", ref="DESIGN.md §6 C15"),
+})
+CHECKS.update({
+ 'C17': dict(text="PARTIAL. Theorems C17_directed_calls_defined / C17_undirected_calls_defined / C17_constructor_and_iteration / C17_loaders_defined (Coq): from ANY state with size-many "
+                  "adjacency lists (every constructor gives one, every call keeps it) NO call of the directed or undirected class model - any arguments, valid or not, any flags - ends in "
+                  "the model's undefined-behaviour outcome (unchecked index, dereferenced end(), exhausted loop); begin()..end() traversal, hasEdge and getOutNeighbours are defined; the "
+                  "binary and both text loaders are defined on EVERY byte string; the same for every call of both multigraphs and both weighted graphs, every observer of the six classes "
+                  "(three enumerating observers need, and every call keeps, the range invariant WF), every path search and Dijkstra with the repaired range checks (out-of-range -> "
+                  "std::out_of_range), edge-list constructors, conversions, reversal and subgraphs. The C++ object model (iterator invalidation, lifetimes, uninitialised memory, library preconditions) "
+                  "cannot be carried by a Gallina model: it is exhibited by running a sample of all other checks' cases in a build matrix (g++ -O1 ASan+UBSan as base, g++ -O0 with "
+                  "_GLIBCXX_DEBUG, g++ -O2 with _GLIBCXX_ASSERTIONS, clang++ -O2 ASan+UBSan; thorough adds clang++ -O0 debug STL, g++ -O3 sanitised, valgrind memcheck): the base run must "
+                  "agree with the Coq models, every other configuration must finish every case normally and print the same bytes.",
+             note=TB + "Runtime behaviour not covered by proof: everything the sanitizers / checked STL / valgrind instrument, on the generated cases only.",
+             tech="Coq proof (no model call reaches the UB outcome; loaders total) + build-matrix differential execution under sanitizers and checked STL", ref="DESIGN.md §6 C17"),
+ 'C18': dict(text="PARTIAL. Theorems C18_readers_deterministic / C18_shared_graph_unchanged (Coq): in the interleaving semantics of ConcModel - any number of reader threads, any scripts over "
+                  "the const entry points (all observers and iteration, ==, copy, reversal/conversions, subgraph extraction, path searches, writers), ANY schedule - the shared graph never "
+                  "changes and a thread that has finished holds exactly its single-threaded results. The memory-level claim 'no data race' has no counterpart in a Gallina value: it is "
+                  "exhibited by reader threads (2-8, thorough 16) hammering one shared object built from a seeded history, under ThreadSanitizer; thread results are compared with the "
+                  "single-threaded ones, and the single-threaded observation with the Coq model and spec, before and after.",
+             note=TB + "Runtime behaviour not covered by proof: the C++ memory model; schedules not exercised by the run; interleavings finer than one call.",
+             tech="Coq proof (any-schedule determinism of read-only scripts in an interleaving model) + ThreadSanitizer differential run of reader threads", ref="DESIGN.md §6 C18"),
 })
 NA = {'C20': "about the C++ type checker/linker accepting client programs (template instantiation, overload resolution, ODR): no executable Gallina model has a counterpart, so machine-checked proof cannot apply (DESIGN.md §6 C20)"}
 def main():
